@@ -288,6 +288,7 @@ pub static LAST_REPO_PANIC: StdMutex<Option<String>> = StdMutex::new(None);
 // and take the explorer with it). The hook table below turns that into a panic of the step, i.e. a verdict.
 struct SelfLockDetector {
     held: StdMutex<std::collections::HashMap<std::thread::ThreadId, Vec<usize>>>,
+    timeouts: std::sync::atomic::AtomicU64,
 }
 
 impl teos::verif_sync::Hooks for SelfLockDetector {
@@ -314,6 +315,13 @@ impl teos::verif_sync::Hooks for SelfLockDetector {
     fn wait(&self, _condvar: usize, _mutex: usize) {
         panic!("blocked for ever: a condition is waited for on the only thread there is");
     }
+    fn wait_timeout(&self, _condvar: usize, _mutex: usize) -> bool {
+        // nobody else is there to notify: the time-out elapses (a wait that is re-armed for ever is a verdict as well)
+        if self.timeouts.fetch_add(1, std::sync::atomic::Ordering::Relaxed) > 2000 {
+            panic!("blocked for ever: a timed wait on the only thread there is has been re-armed 2000 times");
+        }
+        true
+    }
     fn notify(&self, _condvar: usize, _all: bool) {}
     fn atomic(&self, _id: usize, _store: bool) {}
 }
@@ -328,7 +336,7 @@ pub fn ensure_self_lock_detector() {
         return;
     }
     if !DETECTOR_ON.with(|d| d.get()) {
-        teos::verif_sync::set_thread_hooks(Some(Arc::new(SelfLockDetector { held: StdMutex::new(Default::default()) })));
+        teos::verif_sync::set_thread_hooks(Some(Arc::new(SelfLockDetector { held: StdMutex::new(Default::default()), timeouts: Default::default() })));
         DETECTOR_ON.with(|d| d.set(true));
     }
 }
